@@ -44,6 +44,27 @@ struct RecBuilder
     slice alt(slice s1, slice s2) { calls->push_back({ "alt", { long(s1.start), long(s1.n), long(s2.start), long(s2.n) }, {} }); return ret(b.alt(s1, s2)); }
 };
 
+// the library's own entry point for the reserved size: analyze_dfa_size takes a char array, so run-time patterns
+// are dispatched over their length (longer patterns: -2 = not driven through the entry point)
+#ifndef RX_API_MAX
+#define RX_API_MAX 40
+#endif
+template<size_t N>
+long api_size_one(const std::string& p, std::string& threw)
+{
+    char arr[N] = {};
+    for (size_t i = 0; i + 1 < N; ++i) arr[i] = p[i];
+    try { return long(regex::analyze_dfa_size(arr)); }
+    catch (const std::exception& e) { threw = e.what(); return -1; }
+}
+template<size_t... I>
+long api_size(const std::string& p, std::string& threw, std::index_sequence<I...>)
+{
+    long r = -2;
+    ((p.size() == I ? (r = api_size_one<I + 1>(p, threw), 0) : 0), ...);
+    return r;
+}
+
 struct PJob { std::string id, pat; std::vector<std::string> strs; };
 
 int main(int argc, char** argv)
@@ -88,6 +109,8 @@ int main(int argc, char** argv)
                 catch (const std::exception& e) { threw1 = e.what(); }
             }
             std::vector<vh::Event> ev1 = L.ev;
+            std::string threw0;
+            long api = api_size(j.pat, threw0, std::make_index_sequence<RX_API_MAX>{});
             // ---- pass 2: the real builder behind a recording context
             L.reset();
             std::vector<Call> calls;
@@ -110,6 +133,7 @@ int main(int argc, char** argv)
             o += ",\"valid\":"; o += valid ? "true" : "false";
             o += ",\"built\":"; o += built ? "true" : "false";
             o += ",\"size_pred\":" + std::to_string(pred) + ",\"size_used\":" + std::to_string(long(dfa_holder->size()));
+            o += ",\"size_api\":" + std::to_string(api) + ",\"threw0\":"; vh::jstr(o, threw0);
             o += ",\"slice\":[" + std::to_string(whole.start) + "," + std::to_string(whole.n) + "]";
             o += ",\"threw1\":"; vh::jstr(o, threw1); o += ",\"threw2\":"; vh::jstr(o, threw2);
             o += ",\"reads1\":"; vh::jevents(o, ev1); o += ",\"reads2\":"; vh::jevents(o, ev2);
